@@ -203,7 +203,7 @@ def _scorer_harness(sym, scorer, n, p, cut):
                 _equal(eng, acc, "reverse.value_of_mirrored_cut", got[0, j], ref[0, j], dict(info, col=j, mirrored=list(mirror(cut, n))))
         acc.sample(dict(info, value=str(z3.simplify(rv(ref[0, 0])))[:120] if ref is not None else "RuntimeError"))
 
-    return Harness(run, base, sliced=True, timeout_ms=15000, name=f"{sym} {scorer} {cut}")
+    return Harness(run, base, sliced=True, timeout_ms=15000 if n <= 4 else 45000, name=f"{sym} {scorer} {cut}")
 
 
 # ---------------------------------------------------------------------------------- detectors
@@ -404,9 +404,12 @@ def jobs(tier):
 
     for scorer in zoo:
         pp, ll = p, lim
-        if scorer == "ChangeScore(GaussianVarCost)" and tier == "quick":
-            pp, ll = 1, 6            # p=2 multiplies the floor branches of two runs x three segments
-        add("perm", scorer, n, p if scorer != "ChangeScore(GaussianVarCost)" or tier != "quick" else 2, 3 if (scorer == "ChangeScore(GaussianVarCost)" and tier == "quick") else lim)
+        if scorer == "ChangeScore(GaussianVarCost)":
+            pp, ll = 1, (6 if tier == "quick" else 12)   # p=2 multiplies the floor branches of two runs x three segments
+        if scorer == "ChangeScore(GaussianVarCost)":
+            add("perm", scorer, 4, 2, 3 if tier == "quick" else 6)     # column permutation needs p=2: kept at n=4
+        else:
+            add("perm", scorer, n, p, lim)
         add("reverse", scorer, n, pp, ll)
         if scorer not in ("L2Saving",):
             add("shift", scorer, n, pp, ll)
